@@ -89,6 +89,23 @@ Flavor(k, c) ==
   ELSE IF 8 * c < (OffBase + 8) * k THEN "pinned"
   ELSE "sliding"
 
+(* ---- the HIP estimator's kxp register, exactly -------------------------------- *)
+\* kxp = k - sum over the collected coupons (row, col) of 2^-(col + 1): the probability mass (times k) of
+\* the cells still empty; the HIP accumulator grows by k / kxp at every new coupon. As an integer:
+\* kxp * 2^64 = k * 2^64 - sum_col count(col) * 2^(63 - col), on five 16-bit limbs (80 bits, Wide.tla).
+W80 == INSTANCE Wide WITH B <- 65536, N <- 5
+ColCounts(m) ==
+  FoldLeft(LAMBDA h, i : [c \in 0..63 |-> h[c] + (IF c \in m[i] THEN 1 ELSE 0)], [c \in 0..63 |-> 0],
+           [j \in 1..Cardinality(DOMAIN m) |-> j - 1])
+KxpW(m, lgk) ==
+  LET h == ColCounts(m)
+      taken == W80!WSum([i \in 1..64 |-> W80!WShl(W80!WOfSmall(h[i - 1]), 63 - (i - 1))]) IN
+  W80!WSub(W80!WShl(W80!WOfSmall(P2(lgk)), 64), taken)
+\* the implementation's f64 register agrees up to the rounding of its incremental upkeep: k * 2^-40
+KxpClose(x, y, lgk) ==
+  LET tol == W80!WShl(W80!WOfSmall(1), lgk + 24) IN
+  W80!WLeq(x, W80!WAdd(y, tol)) /\ W80!WLeq(y, W80!WAdd(x, tol))
+
 (* ---- image format selectors ------------------------------------------------- *)
 \* Which code table encodes the window bytes is not stored in the image: writer and reader derive a
 \* pseudo-phase from (lg_k, number of coupons); the thresholds are part of the cross-language format.
